@@ -202,7 +202,8 @@ func (rc *c12Rec) encode(seqno uint64) []byte {
 type c12Driver struct {
 	fb    *FragmentBuffer
 	msgs  []c12Msg
-	small bool // include hex of buffers / popped messages
+	small bool // include hex of fragment data / popped messages
+	raw   bool // include hex of every pushed buffer (replayable without re-encoding)
 	ops   []c12Op
 	recNo uint64
 }
@@ -224,8 +225,10 @@ func (d *c12Driver) push(rc c12Rec) {
 	d.recNo++
 	buf := rc.encode(d.recNo)
 	op := c12Op{K: "push", Rec: &rc, Pops: []c12Pop{}}
-	if d.small {
+	if d.raw {
 		op.Raw = hex.EncodeToString(buf)
+	}
+	if d.small {
 		for i := range rc.Frags {
 			rc.Frags[i].Data = hex.EncodeToString(rc.Frags[i].data)
 		}
@@ -514,7 +517,7 @@ func c12Exhaustive(emit func(c12Case), maxOne, maxTwo int) {
 // hostile stream: inconsistent Length, overlapping offsets, zero-length fragments at non-zero
 // offsets, 24-bit extremes, broken tails, junk, AdvanceTo anywhere
 func c12HostileCase(r *c12Rand, id int) c12Case {
-	d := &c12Driver{fb: New(), small: true}
+	d := &c12Driver{fb: New(), small: true, raw: true}
 	lens := []int{0, 0, 1, 2, 3, 4, 6, 0xffffff, 0x10000}
 	offs := []int{0, 0, 0, 1, 2, 3, 4, 5, 0xffffff, 0xfffffe}
 	nops := 1 + r.intn(14)
@@ -599,19 +602,19 @@ func c12WitnessCases(emit func(c12Case)) {
 	}
 
 	// BufferSound.panic_record: Length 0, zero-length fragment at offset 1
-	d := &c12Driver{fb: New(), small: true}
+	d := &c12Driver{fb: New(), small: true, raw: true}
 	d.push(one(c12Frag{Ty: 14, Len: 0, Seq: 0, Off: 1, Flen: 0, data: []byte{}}))
 	emit(c12Case{Leg: "witness", ID: 0, Note: "panic", Ops: d.ops})
 
 	// BufferSound.rp_history: MTU-2 and MTU-3 partitions of the same message mixed, then everything again
-	d = &c12Driver{fb: New(), small: true, msgs: []c12Msg{msg}}
+	d = &c12Driver{fb: New(), small: true, raw: true, msgs: []c12Msg{msg}}
 	for _, x := range []c12Frag{f(0, 2), f(3, 1), f(2, 2), f(0, 3), f(0, 2), f(2, 2), f(0, 3), f(3, 1)} {
 		d.push(one(x))
 	}
 	emit(c12Case{Leg: "witness", ID: 1, Note: "repartition", Honest: true, Msgs: d.msgs, Ops: d.ops})
 
 	// BufferSound.zf_history: partition (0,2)(2,0)(2,2); the zero-length fragment arrives before (2,2)
-	d = &c12Driver{fb: New(), small: true, msgs: []c12Msg{msg}}
+	d = &c12Driver{fb: New(), small: true, raw: true, msgs: []c12Msg{msg}}
 	for _, x := range []c12Frag{f(0, 2), f(2, 0), f(2, 2), f(0, 2), f(2, 0), f(2, 2)} {
 		d.push(one(x))
 	}
@@ -636,7 +639,7 @@ func TestVerifC12Buffer(t *testing.T) {
 	r := &c12Rand{s: c12Seed()}
 	mult := 1
 	if c12Thorough() {
-		mult = 30
+		mult = 20
 	}
 	emit := func(c c12Case) { out.emit(c) }
 	c12WitnessCases(emit)
